@@ -1591,14 +1591,40 @@ fn run(op: &str, a: &[&str]) -> String {
     }
 }
 
+/// answers not yet written, the id of the line being run and the instant it started: shared with the watchdog thread
+struct Pending {
+    buf: Vec<u8>,
+    current: String,
+    since: std::time::Instant,
+    lines_done: u64,
+}
+
 fn main() {
     std::panic::set_hook(Box::new(|_| {}));
     // with the crate's logging compiled in, the arguments of a log statement are evaluated only when the level passes the filter
     #[cfg(feature = "log-all")]
     log::set_max_level(log::LevelFilter::Trace);
+    // a case that does not return (non-terminating loop) cannot be interrupted from inside; a watchdog thread writes the answers
+    // collected so far, answers `hang` for the line being run and ends the process with exit code 97: the caller re-runs the rest
+    let limit = std::env::var("VERIF_LINE_TIMEOUT").ok().and_then(|s| s.parse::<u64>().ok()).unwrap_or(20);
+    let pending = std::sync::Arc::new(std::sync::Mutex::new(Pending { buf: Vec::with_capacity(1 << 20), current: String::new(), since: std::time::Instant::now(), lines_done: 0 }));
+    {
+        let pending = pending.clone();
+        std::thread::spawn(move || loop {
+            std::thread::sleep(std::time::Duration::from_millis(500));
+            let mut p = pending.lock().unwrap();
+            if !p.current.is_empty() && p.since.elapsed().as_secs() >= limit {
+                let id = p.current.clone();
+                p.buf.extend_from_slice(format!("{}\thang\n", id).as_bytes());
+                let so = std::io::stdout();
+                let mut so = so.lock();
+                so.write_all(&p.buf).ok();
+                so.flush().ok();
+                std::process::exit(97);
+            }
+        });
+    }
     let stdin = std::io::stdin();
-    let stdout = std::io::stdout();
-    let mut out = std::io::BufWriter::with_capacity(1 << 20, stdout.lock());
     for line in stdin.lock().lines() {
         let line = match line {
             Ok(l) => l,
@@ -1610,6 +1636,11 @@ fn main() {
             _ => continue,
         };
         let args: Vec<&str> = it.collect();
+        {
+            let mut p = pending.lock().unwrap();
+            p.current = id.to_string();
+            p.since = std::time::Instant::now();
+        }
         let ans = match catch_unwind(AssertUnwindSafe(|| run(op, &args))) {
             Ok(s) => s,
             Err(p) => {
@@ -1617,7 +1648,20 @@ fn main() {
                 format!("panic {}", msg.replace(['\t', '\n'], " "))
             }
         };
-        writeln!(out, "{}\t{}", id, ans).ok();
+        let mut p = pending.lock().unwrap();
+        p.current.clear();
+        p.lines_done += 1;
+        p.buf.extend_from_slice(format!("{}\t{}\n", id, ans).as_bytes());
+        if p.buf.len() >= (1 << 20) {
+            let so = std::io::stdout();
+            let mut so = so.lock();
+            so.write_all(&p.buf).ok();
+            p.buf.clear();
+        }
     }
-    out.flush().ok();
+    let p = pending.lock().unwrap();
+    let so = std::io::stdout();
+    let mut so = so.lock();
+    so.write_all(&p.buf).ok();
+    so.flush().ok();
 }
